@@ -583,11 +583,13 @@ func (e *Engine) funcCtx(p *Path, fr *Frame, old *State) *EvalCtx {
 	ctx := &EvalCtx{eng: e, pkg: e.pkgOfFunc(fr.fn), cur: p.st, old: old, env: env}
 	if fr.ct != nil {
 		var names []string
+		var ptys []types.Type
 		for _, prm := range fr.fn.Params {
 			names = append(names, prm.Name())
+			ptys = append(ptys, prm.Type())
 		}
 		ctx.unknown = func(name string) (TV, bool) {
-			if i, ok := e.renamedParam(fr.ct, names, name); ok {
+			if i, ok := e.renamedParam(fr.ct, names, ptys, fr.fn.Signature, e.pkgOfFunc(fr.fn), name); ok {
 				if v, has := fr.env[fr.fn.Params[i]]; has {
 					return TV{V: v, T: fr.fn.Params[i].Type()}, true
 				}
@@ -915,7 +917,7 @@ func (e *Engine) applyContract(p *Path, fr *Frame, ct *Contract, what string, pk
 		if ct.Kind != "func" {
 			return TV{}, false
 		}
-		if i, ok := e.renamedParam(ct, names, name); ok && i < len(args) {
+		if i, ok := e.renamedParam(ct, names, tys, sig, pkg, name); ok && i < len(args) {
 			return TV{V: args[i], T: tys[i]}, true
 		}
 		return TV{}, false
